@@ -60,17 +60,17 @@ int SimulateTms1000::set_reg(const char *reg_string, uint32_t value)
 {
   if (strcasecmp(reg_string, "a") == 0)
   {
-    reg_a = value;
+    reg_a = value & 0xf;
   }
     else
   if (strcasecmp(reg_string, "x") == 0)
   {
-    reg_x = value;
+    reg_x = value & 0x3;
   }
     else
   if (strcasecmp(reg_string, "y") == 0)
   {
-    reg_y = value;
+    reg_y = value & 0xf;
   }
     else
   if (strcasecmp(reg_string, "r") == 0)
